@@ -1,6 +1,8 @@
 package netceptor
 
 import (
+	"net"
+	"io"
 	"context"
 	"crypto/tls"
 	"fmt"
@@ -137,5 +139,56 @@ func Verif_C03_accept_first_byte() {
 	cancel()
 	_ = li.Close()
 	n.s.cancelFunc()
+	verifapi.Quiesce()
+}
+
+// Verif_C03_dialled_conn_peer_finishes_first: a connection made by the real DialContext (QUIC stubbed):
+// the dialler writes its data and closes its writing side; the peer had answered and finished writing
+// before consuming that data, so the dialler reads the answer and then the peer's end of stream. What
+// the dialler wrote went to the stream unchanged, the answer is read unchanged followed by end of
+// stream, and reading it does not end the QUIC connection the dialler's own data are still travelling
+// on - only CloseConnection (or the peer, or the idle timeout) does.
+func Verif_C03_dialled_conn_peer_finishes_first() {
+	n := verifNetceptor("A")
+	s := n.s
+	n.verifConn("B", 1)
+	s.routingTable["B"] = "B"
+	answer := verifapi.BytesUpTo(2)
+	qctx, qcancel := context.WithCancel(context.Background())
+	st := &verifQStream{closed: new(int), wrote: &[]byte{}, in: answer, eof: true}
+	_ = st.Context()
+	qc := &verifQConn{ctx: qctx, cancel: qcancel, stream: st, remote: Addr{node: "B", service: "svc"}}
+	verifapi.Redirect("(*github.com/quic-go/quic-go.Transport).Dial", func(t *quic.Transport, ctx context.Context, addr net.Addr, tlsConf *tls.Config, conf *quic.Config) (quic.Connection, error) {
+		return qc, nil
+	})
+	verifapi.FixRandom("ephem003")
+	conn, err := s.DialContext(context.Background(), "B", "svc", nil)
+	verifapi.Assert("dial-ok", err == nil && conn != nil)
+	data := verifapi.BytesUpTo(2)
+	wn, werr := conn.Write(data)
+	verifapi.Assert("written-bytes-reach-the-stream-unchanged", verifapi.All(werr == nil, wn == len(data), verifapi.SameBytes((*st.wrote)[1:], data)))
+	closeFirst := verifapi.Bool()
+	if closeFirst {
+		_ = conn.Close()
+	}
+	var got []byte
+	buf := make([]byte, 4)
+	var rerr error
+	for i := 0; i < 4 && rerr == nil; i++ {
+		var rn int
+		rn, rerr = conn.Read(buf)
+		got = append(got, buf[:rn]...)
+	}
+	if !closeFirst {
+		_ = conn.Close()
+	}
+	verifapi.Quiesce()
+	verifapi.Cover("answer-read-to-end-of-stream")
+	verifapi.Assert("answer-read-unchanged-then-end-of-stream", verifapi.All(rerr == io.EOF, verifapi.SameBytes(got, answer)))
+	verifapi.Assert("half-close-and-end-of-stream-do-not-end-the-connection", qctx.Err() == nil)
+	_ = conn.CloseConnection()
+	verifapi.Quiesce()
+	verifapi.Assert("connection-close-ends-the-connection", qctx.Err() != nil)
+	s.cancelFunc()
 	verifapi.Quiesce()
 }
